@@ -13,8 +13,9 @@ PROPERTY = 'C13'
 
 
 def contracts(tier):
-    from . import strategies
-    return strategies.all_contracts(tier) + reduplicate_contracts(tier)
+    from . import strategies, rebuild
+    return strategies.all_contracts(tier) + reduplicate_contracts(tier) + \
+        rebuild.reduplicate_contracts(tier)
 
 
 def native_checks(tier):
